@@ -233,6 +233,180 @@ theorem ingrRefChecks_pfAt (env : Env) (input : Str) (li : Loc (PIngredient α))
     rw [hdef] at hc; cases hc
   · exact h0 _ s.diags
 
+theorem ingrSetReferencedFrom_pfAt (refTo newIndex : Nat) (defn : Ingredient (ScalableValue α)) (s : Col α)
+    (hdef : defn.relation.relation.isReference = false) : PFAt (ingrSetReferencedFrom refTo newIndex defn) s := by
+  unfold ingrSetReferencedFrom
+  split
+  · exact PFAt.modify _ _ rfl
+  · rename_i h; rw [h] at hdef; cases hdef
+
+/-- the regular branch of `ingredient`: the reference target found by `rposition` is in range of both
+    tables and is a definition; its back-links are in range -/
+theorem ingrRegular_pfAt (env : Env) (input : Str) (li : Loc (PIngredient α)) (igr0 : Ingredient (ScalableValue α))
+    (s : Col α) (hloc : s.locIngr.size = s.ingredients.size) (htab : IngrTable env s.ingredients)
+    (hq : QLinkI s.ingredients s.locIngr) : PFAt (ingrRegular env input li igr0) s := by
+  unfold ingrRegular
+  apply PFAt.bind_get
+  dsimp only
+  have hout := resolveReference_out (α := α) env "ingredient"
+    (Modifiers.HIDDEN ||| Modifiers.OPT ||| Modifiers.RECIPE) (s.ingredients.toList.map (fun x => (x.name, x.modifiers)))
+    igr0.name igr0.modifiers li.span li.val.modifiers.span s
+  refine PFAt.bind_diag (by diag_leaf) ((resolveReference_pf ..).pfAt _) (fun d => ?_)
+  generalize resolveReference (α := α) env "ingredient"
+    (Modifiers.HIDDEN ||| Modifiers.OPT ||| Modifiers.RECIPE) (s.ingredients.toList.map (fun x => (x.name, x.modifiers)))
+    igr0.name igr0.modifiers li.span li.val.modifiers.span s = rr at hout ⊢
+  cases ho : rr.1.2 with
+  | none => exact PFAt.pure _ _
+  | some o =>
+    obtain ⟨hsn, hREF⟩ := hout o ho
+    obtain ⟨n, m, hex, hmREF, hname⟩ := sameNameIdx_spec _ _ _ _ hsn
+    simp only [List.getElem?_map, Array.getElem?_toList, Option.map_eq_some_iff, Prod.mk.injEq] at hex
+    obtain ⟨defn, hdefn, rfl, rfl⟩ := hex
+    have hlt : o.refTo < s.ingredients.size := lt_size_of_getElem? hdefn
+    obtain ⟨defLoc, hdefLoc⟩ : ∃ dl, s.locIngr[o.refTo]? = some dl :=
+      ⟨s.locIngr[o.refTo]'(by omega), Array.getElem?_eq_getElem _⟩
+    obtain ⟨rf, b, hrel⟩ := htab.nonREF_def _ _ hdefn hmREF
+    have hisdef : defn.relation.relation.isReference = false := by rw [hrel]; rfl
+    dsimp only
+    apply PFAt.bind_get
+    dsimp only
+    rw [hdefn, hdefLoc]
+    dsimp only
+    with_reducible refine PFAt.bind_diag (by diag_leaf) ?_ (fun d' => ?_)
+    · refine ingrRefChecks_pfAt _ _ _ _ _ _ _ _ hisdef ?_ hq ?_
+      · intro idx hidx
+        simp only [List.mem_cons] at hidx
+        rcases hidx with rfl | hidx
+        · exact ⟨hlt, by show o.refTo < s.locIngr.size; omega⟩
+        · have := htab.rfBound _ _ hdefn idx hidx
+          exact ⟨this, by show idx < s.locIngr.size; omega⟩
+      · exact hq _ _ _ hdefn hdefLoc
+    · with_reducible apply PFAt.bind
+      · exact ingrSetReferencedFrom_pfAt _ _ _ _ hisdef
+      · exact PFAt.pure _ _
+
+/-- what the events must satisfy for the analysis not to panic on them: `EvOK` plus a non-negative
+    intermediate reference value -/
+def EvOK' : Ev α → Prop
+  | .ingredient i => (i.val.inter.isSome = true → i.val.modifiers.val.contains Modifiers.REF = true) ∧
+      ∀ d, i.val.inter = some d → 0 ≤ d.val.val
+  | .timer t => t.val.name.isSome = true ∨ t.val.quantity.isSome = true
+  | _ => True
+
+theorem EvOK'.evOK {ev : Ev α} (h : EvOK' ev) : EvOK ev := by
+  cases ev <;> first | trivial | exact h | exact h.1
+
+theorem ingrBuild_pfAt (env : Env) (input : Str) (li : Loc (PIngredient α)) (igr0 : Ingredient (ScalableValue α))
+    (s : Col α) (hloc : s.locIngr.size = s.ingredients.size) (htab : IngrTable env s.ingredients)
+    (hq : QLinkI s.ingredients s.locIngr)
+    (hev : EvOK' (.ingredient li)) (hm : igr0.modifiers = li.val.modifiers.val) :
+    PFAt (ingrBuild env input li igr0) s := by
+  unfold ingrBuild
+  with_reducible apply PFAt.bind
+  · split
+    · rename_i d hd
+      exact ingrInter_pfAt _ _ _ _ (by rw [hm]; exact hev.1 (by rw [hd]; rfl)) (hev.2 d hd)
+    · exact ingrRegular_pfAt env input li igr0 s hloc htab hq
+  · pf_at
+
+theorem ingredientA_pfAt (env : Env) (input : Str) (li : Loc (PIngredient α))
+    (s : Col α) (hloc : s.locIngr.size = s.ingredients.size) (htab : IngrTable env s.ingredients)
+    (hq : QLinkI s.ingredients s.locIngr) (hev : EvOK' (.ingredient li)) :
+    PFAt (ingredientA env input li) s := by
+  unfold ingredientA
+  dsimp only
+  with_reducible refine PFAt.bind_diag (by diag_leaf) ((optQuantityOf_pf ..).pfAt _) (fun d => ?_)
+  apply PFAt.bind_get
+  exact ingrBuild_pfAt env input li _ _ hloc htab hq hev rfl
+
+theorem cwRefChecks_pfAt (input : Str) (lc : Loc (PCookware α)) (cw : Cookware (ScalableValue α))
+    (defn : Cookware (ScalableValue α)) (defLoc : Loc (PCookware α)) (s : Col α)
+    (hdef : defn.relation.isReference = false)
+    (hdq : defn.quantity.isSome = true → defLoc.val.quantity.isSome = true) :
+    PFAt (cwRefChecks input lc cw defn defLoc) s := by
+  unfold cwRefChecks
+  extract_lets c dis rl dl jp2 jp1 jp0
+  have h2 : ∀ r d, PFAt (jp2 r) { s with diags := d } := by
+    intro r d; simp only [jp2]; pf_at
+    rename_i rq dq hrq hdq' _ hn
+    exfalso
+    have := hdq (by rw [hdq']; rfl)
+    revert hn this
+    cases defLoc.val.quantity <;> simp
+  clear_value jp2
+  have h1 : ∀ r d, PFAt (jp1 r) { s with diags := d } := by
+    intro r d; simp only [jp1]; pf_at
+    all_goals exact h2 _ _
+  clear_value jp1
+  have h0 : ∀ r d, PFAt (jp0 r) { s with diags := d } := by
+    intro r d; simp only [jp0]; pf_at
+    all_goals exact h1 _ _
+  clear_value jp0
+  split
+  · rename_i hc
+    rw [hdef] at hc; cases hc
+  · exact h0 _ s.diags
+
+theorem cwSetReferencedFrom_pfAt (refTo newIndex : Nat) (defn : Cookware (ScalableValue α)) (s : Col α)
+    (hdef : defn.relation.isReference = false) : PFAt (cwSetReferencedFrom refTo newIndex defn) s := by
+  unfold cwSetReferencedFrom
+  split
+  · exact PFAt.modify _ _ rfl
+  · rename_i h; rw [h] at hdef; cases hdef
+
+theorem cwResolve_pfAt (env : Env) (input : Str) (lc : Loc (PCookware α)) (cw0 : Cookware (ScalableValue α))
+    (s : Col α) (hloc : s.locCw.size = s.cookware.size) (htab : CwTable env s.cookware)
+    (hq : QLinkC s.cookware s.locCw) : PFAt (cwResolve env input lc cw0) s := by
+  unfold cwResolve
+  apply PFAt.bind_get
+  dsimp only
+  have hout := resolveReference_out (α := α) env "cookware item"
+    (Modifiers.HIDDEN ||| Modifiers.OPT) (s.cookware.toList.map (fun x => (x.name, x.modifiers)))
+    cw0.name cw0.modifiers lc.span lc.val.modifiers.span s
+  refine PFAt.bind_diag (by diag_leaf) ((resolveReference_pf ..).pfAt _) (fun d => ?_)
+  generalize resolveReference (α := α) env "cookware item"
+    (Modifiers.HIDDEN ||| Modifiers.OPT) (s.cookware.toList.map (fun x => (x.name, x.modifiers)))
+    cw0.name cw0.modifiers lc.span lc.val.modifiers.span s = rr at hout ⊢
+  cases ho : rr.1.2 with
+  | none => exact PFAt.pure _ _
+  | some o =>
+    obtain ⟨hsn, hREF⟩ := hout o ho
+    obtain ⟨n, m, hex, hmREF, hname⟩ := sameNameIdx_spec _ _ _ _ hsn
+    simp only [List.getElem?_map, Array.getElem?_toList, Option.map_eq_some_iff, Prod.mk.injEq] at hex
+    obtain ⟨defn, hdefn, rfl, rfl⟩ := hex
+    have hlt : o.refTo < s.cookware.size := lt_size_of_getElem? hdefn
+    obtain ⟨defLoc, hdefLoc⟩ : ∃ dl, s.locCw[o.refTo]? = some dl :=
+      ⟨s.locCw[o.refTo]'(by omega), Array.getElem?_eq_getElem _⟩
+    obtain ⟨rf, b, hrel⟩ := htab.nonREF_def _ _ hdefn hmREF
+    have hisdef : defn.relation.isReference = false := by rw [hrel]; rfl
+    dsimp only
+    apply PFAt.bind_get
+    dsimp only
+    rw [hdefn, hdefLoc]
+    dsimp only
+    with_reducible refine PFAt.bind_diag (by diag_leaf) ?_ (fun d' => ?_)
+    · exact cwRefChecks_pfAt _ _ _ _ _ _ hisdef (hq _ _ _ hdefn hdefLoc)
+    · with_reducible apply PFAt.bind
+      · exact cwSetReferencedFrom_pfAt _ _ _ _ hisdef
+      · exact PFAt.pure _ _
+
+theorem cwBuild_pfAt (env : Env) (input : Str) (lc : Loc (PCookware α)) (cw0 : Cookware (ScalableValue α))
+    (s : Col α) (hloc : s.locCw.size = s.cookware.size) (htab : CwTable env s.cookware)
+    (hq : QLinkC s.cookware s.locCw) : PFAt (cwBuild env input lc cw0) s := by
+  unfold cwBuild
+  with_reducible apply PFAt.bind
+  · exact cwResolve_pfAt env input lc cw0 s hloc htab hq
+  · pf_at
+
+theorem cookwareA_pfAt (env : Env) (input : Str) (lc : Loc (PCookware α))
+    (s : Col α) (hloc : s.locCw.size = s.cookware.size) (htab : CwTable env s.cookware)
+    (hq : QLinkC s.cookware s.locCw) : PFAt (cookwareA env input lc) s := by
+  unfold cookwareA
+  dsimp only
+  with_reducible refine PFAt.bind_diag (by diag_leaf) ((optValueOf_pf ..).pfAt _) (fun d => ?_)
+  apply PFAt.bind_get
+  exact cwBuild_pfAt env input lc _ _ hloc htab hq
+
 end pieces
 
 end Cook
